@@ -25,7 +25,7 @@ use std::{
 };
 
 use serde_json::{json, Value};
-use wfcommon::util::{bytes_of, catch, json_bytes, read_ndjson};
+use wfcommon::util::{bytes_of, catch, json_bytes};
 use winter_utils::{
     ByteReader, ByteWriter, Deserializable, DeserializationError, ReadAdapter, Serializable,
     SliceReader,
@@ -549,7 +549,17 @@ fn emit_line(v: &Value) {
     let _ = w.flush();
 }
 
-fn run_isolated(scenarios: &[Value], skip_big: bool) -> Result<(usize, usize, usize, usize, usize), String> {
+/// Aborts in scenarios that do not even reach an oversized length prefix are not expected on any sane
+/// tree; after this many the run stops early (each costs a fork) and the summary says so.
+const MAX_UNEXPECTED_ABORTS: usize = 40;
+
+/// The parent keeps the scenario file as raw bytes and every worker parses the lines it runs: the cost of
+/// a fork grows with the memory of the forking process.
+fn parse_line(raw: &[u8], lines: &[(usize, usize)], i: usize) -> Result<Value, String> {
+    serde_json::from_slice(&raw[lines[i].0..lines[i].1]).map_err(|e| format!("bad json in scenario {i}: {e}"))
+}
+
+fn run_isolated(raw: &[u8], lines: &[(usize, usize)], skip_big: bool) -> Result<(usize, usize, usize, usize, usize, bool), String> {
     let shared: &mut Shared = unsafe {
         let p = libc::mmap(std::ptr::null_mut(), std::mem::size_of::<Shared>(), libc::PROT_READ | libc::PROT_WRITE,
             libc::MAP_SHARED | libc::MAP_ANONYMOUS, -1, 0);
@@ -559,10 +569,12 @@ fn run_isolated(scenarios: &[Value], skip_big: bool) -> Result<(usize, usize, us
         &mut *(p as *mut Shared)
     };
     *shared = Shared { current: 0, evaluations: 0, hint_inexact: 0, mismatches: 0 };
-    let n = scenarios.len();
+    let n = lines.len();
     let mut start = 0usize;
     let mut forks = 0usize;
     let mut aborts = 0usize;
+    let mut unexpected = 0usize;
+    let mut stopped_early = false;
     while start < n {
         forks += 1;
         let mut fds = [0i32; 2];
@@ -586,8 +598,16 @@ fn run_isolated(scenarios: &[Value], skip_big: bool) -> Result<(usize, usize, us
                 libc::setrlimit(libc::RLIMIT_CORE, &core);
             }
             let mut st = Stats { evaluations: 0, hint_inexact: 0 };
-            for (i, sc) in scenarios.iter().enumerate().skip(start) {
+            for i in start..n {
                 shared.current = i as u64;
+                let sc = match parse_line(raw, lines, i) {
+                    Ok(v) => v,
+                    Err(e) => {
+                        eprintln!("{e}");
+                        unsafe { libc::_exit(3) };
+                    },
+                };
+                let sc = &sc;
                 if skip_big && is_big(sc) {
                     continue;
                 }
@@ -634,7 +654,10 @@ fn run_isolated(scenarios: &[Value], skip_big: bool) -> Result<(usize, usize, us
         };
         let signal = if libc::WIFSIGNALED(status) { Some(libc::WTERMSIG(status)) } else { None };
         let exit = if libc::WIFEXITED(status) { Some(libc::WEXITSTATUS(status)) } else { None };
-        let sc = &scenarios[cur];
+        if exit == Some(3) {
+            return Err(errtxt);
+        }
+        let sc = &parse_line(raw, lines, cur)?;
         aborts += 1;
         shared.mismatches += 1;
         shared.evaluations += 1;
@@ -642,11 +665,18 @@ fn run_isolated(scenarios: &[Value], skip_big: bool) -> Result<(usize, usize, us
             "expected": sc["exp"]["t"], "got": "abort", "signal": signal, "exit": exit, "stderr": msg,
             "exp": exp_summary(&sc["exp"]), "input": short_bytes(&bytes_of(&sc["input"]))}}));
         start = cur + 1;
+        if !is_big(sc) {
+            unexpected += 1;
+            if unexpected >= MAX_UNEXPECTED_ABORTS {
+                stopped_early = true;
+                break;
+            }
+        }
         if forks > n + 1 {
             return Err("workers keep dying without progress".into());
         }
     }
-    Ok((shared.evaluations as usize, shared.hint_inexact as usize, shared.mismatches as usize, forks, aborts))
+    Ok((shared.evaluations as usize, shared.hint_inexact as usize, shared.mismatches as usize, forks, aborts, stopped_early))
 }
 
 // ---------------------------------------------------------------------------------------------
@@ -669,20 +699,31 @@ pub fn main(args: &[String]) -> i32 {
         },
         Some(path) => {
             let skip_big = args.iter().any(|a| a == "--skip-big");
-            let scenarios = read_ndjson(path);
-            let mut types = BTreeSet::new();
-            let mut n_big = 0usize;
-            for sc in scenarios.iter() {
-                types.insert(desc_name(&sc["ty"]));
-                if is_big(sc) && !skip_big {
-                    n_big += 1;
+            let raw = match std::fs::read(path) {
+                Ok(b) => b,
+                Err(e) => {
+                    eprintln!("cannot read {path}: {e}");
+                    return 2;
+                },
+            };
+            let mut lines = Vec::new();
+            let mut a = 0usize;
+            for (k, b) in raw.iter().enumerate() {
+                if *b == b'\n' {
+                    if raw[a..k].iter().any(|c| !c.is_ascii_whitespace()) {
+                        lines.push((a, k));
+                    }
+                    a = k + 1;
                 }
             }
-            match run_isolated(&scenarios, skip_big) {
-                Ok((evaluations, hint_inexact, mismatches, forks, aborts)) => {
-                    emit_line(&json!({"summary": true, "scenarios": scenarios.len(), "evaluations": evaluations,
-                        "mismatches": mismatches, "oversized_prefix_cases": n_big, "worker_forks": forks, "aborts": aborts,
-                        "types": types.len(), "hint_inexact": hint_inexact}));
+            if raw[a..].iter().any(|c| !c.is_ascii_whitespace()) {
+                lines.push((a, raw.len()));
+            }
+            match run_isolated(&raw, &lines, skip_big) {
+                Ok((evaluations, hint_inexact, mismatches, forks, aborts, stopped_early)) => {
+                    emit_line(&json!({"summary": true, "scenarios": lines.len(), "evaluations": evaluations,
+                        "mismatches": mismatches, "worker_forks": forks, "aborts": aborts,
+                        "hint_inexact": hint_inexact, "stopped_early": stopped_early}));
                     0
                 },
                 Err(e) => {
